@@ -10,7 +10,12 @@ from .runner import Run
 
 def _trace_only(prop):
     def fn(run: Run):
+        from . import mc
+        if prop in mc.MC_FOR:
+            mc.mc_part(run, prop)
         checks.trace_part(run, prop)
+        if prop in ('C01', 'C02', 'C03', 'C06', 'C07', 'C10', 'C13'):
+            T.repo_part(run, prop)
     return fn
 
 
